@@ -18,12 +18,88 @@ type documentXML struct {
 }
 
 // bodyXML represents the document body.
-// Note: Paragraphs and Tables are collected separately by xml.Unmarshal.
-// Use Elements for ordered access (populated by custom parsing).
+// Paragraphs and Tables hold the paragraphs and tables of the text flow (direct
+// children of <w:body> and of block containers); Elements lists them in document
+// order. All three are filled by UnmarshalXML.
 type bodyXML struct {
 	Paragraphs []paragraphXML `xml:"p"`
 	Tables     []tableXML     `xml:"tbl"`
-	Elements   []bodyElement  `xml:"-"` // Populated manually to preserve order
+	Elements   []bodyElement  `xml:"-"` // Paragraphs and tables in document order
+}
+
+// isBlockContainer reports whether a body-level (or cell-level) element merely
+// wraps block content: block-level content controls (<w:sdt>/<w:sdtContent>, as
+// Word writes for a table of contents or a cover page) and custom XML markup.
+// What they hold is part of the text flow like any other paragraph or table.
+func isBlockContainer(local string) bool {
+	switch local {
+	case "sdt", "sdtContent", "customXml":
+		return true
+	}
+	return false
+}
+
+// UnmarshalXML decodes the body in a single pass that keeps the document order
+// of paragraphs and tables (Elements), descending into block containers.
+func (b *bodyXML) UnmarshalXML(d *xml.Decoder, start xml.StartElement) error {
+	type ref struct {
+		table bool
+		index int
+	}
+	var order []ref
+
+	var walk func() error
+	walk = func() error {
+		for {
+			tok, err := d.Token()
+			if err != nil {
+				return err
+			}
+			switch t := tok.(type) {
+			case xml.StartElement:
+				switch {
+				case t.Name.Local == "p":
+					var p paragraphXML
+					if err := d.DecodeElement(&p, &t); err != nil {
+						return err
+					}
+					b.Paragraphs = append(b.Paragraphs, p)
+					order = append(order, ref{false, len(b.Paragraphs) - 1})
+				case t.Name.Local == "tbl":
+					var tbl tableXML
+					if err := d.DecodeElement(&tbl, &t); err != nil {
+						return err
+					}
+					b.Tables = append(b.Tables, tbl)
+					order = append(order, ref{true, len(b.Tables) - 1})
+				case isBlockContainer(t.Name.Local):
+					if err := walk(); err != nil {
+						return err
+					}
+				default:
+					if err := d.Skip(); err != nil {
+						return err
+					}
+				}
+			case xml.EndElement:
+				return nil
+			}
+		}
+	}
+	if err := walk(); err != nil {
+		return err
+	}
+
+	// The slices no longer grow: element pointers are stable now
+	b.Elements = make([]bodyElement, 0, len(order))
+	for _, o := range order {
+		if o.table {
+			b.Elements = append(b.Elements, bodyElement{Type: "table", Table: &b.Tables[o.index]})
+		} else {
+			b.Elements = append(b.Elements, bodyElement{Type: "paragraph", Paragraph: &b.Paragraphs[o.index]})
+		}
+	}
+	return nil
 }
 
 // bodyElement represents an element in the document body (paragraph or table).
@@ -462,6 +538,43 @@ type tableCellXML struct {
 	XMLName    xml.Name       `xml:"tc"`
 	Properties cellPropsXML   `xml:"tcPr"`
 	Paragraphs []paragraphXML `xml:"p"`
+}
+
+// UnmarshalXML decodes a cell, taking its paragraphs also from block containers
+// (cell-level content controls).
+func (c *tableCellXML) UnmarshalXML(d *xml.Decoder, start xml.StartElement) error {
+	c.XMLName = start.Name
+	var walk func() error
+	walk = func() error {
+		for {
+			tok, err := d.Token()
+			if err != nil {
+				return err
+			}
+			switch t := tok.(type) {
+			case xml.StartElement:
+				switch {
+				case t.Name.Local == "tcPr":
+					err = d.DecodeElement(&c.Properties, &t)
+				case t.Name.Local == "p":
+					var p paragraphXML
+					if err = d.DecodeElement(&p, &t); err == nil {
+						c.Paragraphs = append(c.Paragraphs, p)
+					}
+				case isBlockContainer(t.Name.Local):
+					err = walk()
+				default:
+					err = d.Skip()
+				}
+				if err != nil {
+					return err
+				}
+			case xml.EndElement:
+				return nil
+			}
+		}
+	}
+	return walk()
 }
 
 // cellPropsXML represents cell properties.
